@@ -20,7 +20,7 @@ extern_lib libmdsortffi pkg := do
   buildStaticLib (pkg.staticLibDir / name) #[ffiO]
 
 lean_lib Driver where
-  roots := #[`Driver.Ast, `Driver.Wire, `Driver.Conf, `Driver.Main]
+  roots := #[`Driver.Ast, `Driver.Wire, `Driver.Conf, `Driver.Sched, `Driver.Main]
 
 lean_exe driver where
   root := `Driver.Main
